@@ -463,6 +463,11 @@ def replay_gating(d):
             if after != before or "generate" in calls or not (hasattr(r, "is_err") and r.is_err()):
                 return True, f"a check rejected the schema but result={r!r}, directory changed={after != before}, generator ran={'generate' in calls}"
             return False, "rejected: error returned, nothing written"
+        from .checks.gating_checks import NODES
+        expected = {(ci, k) for ci, cat in enumerate(d["checks"]) for k in range(NODES[cat])}
+        missing = expected - {c for c in calls if c != "generate"}
+        if missing:
+            return True, f"generation went ahead although registered checks were never consulted: {sorted(missing)[:4]}"
         exp = dict(before)
         for rec in recs:
             if rec["type"] == "file":
@@ -492,3 +497,169 @@ def replay_gating_real(d):
     if not st.get("ok"):
         return True, f"well-formed schema but generate did not return Ok: {st} {p.stderr[-200:]}"
     return False, "accepted"
+
+
+# ---------------------------------------------------------------- DBC
+def replay_dbc_tv(d):
+    """Regenerate the DBC with the real generator, read it with cantools AND with the own reader, and compare every
+    signal with the real packed layout; if a witness frame is given decode it through cantools as well."""
+    import cantools
+    import fcp_dbc
+    from fcp.encoding import make_encoder, PackedEncoderContext
+
+    from .dbcref import read_dbc
+
+    fcp = _fcp_text(d["schema_text"])
+    files = fcp_dbc.Generator().generate(fcp, {"output": "out"})
+    enc = make_encoder("packed", fcp, PackedEncoderContext().with_unroll_arrays(True))
+    problems = []
+    for impl in [i for i in fcp.impls if i.protocol == "can"]:
+        bus = impl.fields.get("bus", "default")
+        f = [x for x in files if x["bus"] == bus]
+        if not f:
+            problems.append(f"no file for bus {bus}")
+            continue
+        db = cantools.database.load_string(f[0]["contents"], database_format="dbc")
+        own = read_dbc(f[0]["contents"])
+        lay = enc.generate(impl)
+        bits = lay[-1].bitstart + lay[-1].bitlength
+        try:
+            msg = db.get_message_by_frame_id(impl.fields["id"])
+        except KeyError:
+            problems.append(f"no message with id {impl.fields['id']} on bus {bus}")
+            continue
+        if msg.name != impl.name or msg.length != (bits + 7) // 8 or len(msg.signals) != len(lay):
+            problems.append(f"message {msg.name}: dlc {msg.length}, {len(msg.signals)} signals; expected {impl.name}, "
+                            f"{(bits + 7) // 8}, {len(lay)}")
+            continue
+        frame = d.get("frame")
+        for v in lay:
+            name = str(v.name).replace("::", "_")
+            try:
+                sg = msg.get_signal_by_name(name)
+            except KeyError:
+                problems.append(f"no signal {name}")
+                continue
+            kind = type(v.type).__name__
+            endian = v.extended_data.get("endianess") or "little"
+            exp_start = v.bitstart + 7 if endian == "big" and v.bitlength > 8 else (v.bitstart + 7 if endian == "big" else v.bitstart)
+            is_float = bool(getattr(sg, "is_float", False) or getattr(getattr(sg, "conversion", None), "is_float", False))
+            if sg.length != v.bitlength or sg.is_signed != (kind == "SignedType") or \
+                    sg.byte_order != ("big_endian" if endian == "big" else "little_endian") or \
+                    is_float != (kind in ("FloatType", "DoubleType")) or (sg.unit or None) != (v.unit or None) or \
+                    sg.start != exp_start:
+                problems.append(f"signal {name}: start {sg.start} len {sg.length} signed {sg.is_signed} float {is_float} "
+                                f"{sg.byte_order} unit {sg.unit!r}; layout leaf: bitstart {v.bitstart} len {v.bitlength} "
+                                f"{kind} {endian} unit {v.unit!r}")
+            mc = v.extended_data.get("mux_count")
+            ids = sorted(sg.multiplexer_ids or [])
+            if (mc is None and ids) or (mc is not None and ids != list(range(mc))):
+                problems.append(f"signal {name}: multiplexer ids {ids}, schema mux_count {mc}")
+            if name in own["messages"].get(msg.frame_id, {}).get("signals", {}):
+                o = own["messages"][msg.frame_id]["signals"][name]
+                if (o["start"], o["length"]) != (sg.start, sg.length):
+                    problems.append(f"own reader and cantools disagree on {name}")
+        extra = [m.frame_id for m in db.messages if m.frame_id not in
+                 [i.fields["id"] for i in fcp.impls if i.protocol == "can" and i.fields.get("bus", "default") == bus]]
+        if extra:
+            problems.append(f"bus {bus} contains foreign messages {extra}")
+    if problems:
+        return True, "; ".join(problems[:4])
+    return False, "DBC matches the layout"
+
+
+def replay_dbc_symbolic_layout(d):
+    """_make_signals with real cantools classes on the concrete tiling."""
+    from fcp_dbc.dbc_writer import _make_signals
+
+    class T:
+        def __init__(self, s):
+            self.s = s
+
+        def is_signed(self):
+            return self.s
+
+    class P:
+        pass
+
+    pieces, pos = [], 0
+    n = len(d["lengths"])
+    for i, L in enumerate(d["lengths"]):
+        p = P()
+        p.name, p.bitstart, p.bitlength, p.endianess = f"p{i}", pos, L, d["endians"][i]
+        p.type, p.unit = T(d["signed"][i]), f"unit{i}"
+        p.extended_data = {"mux_count": d["mux_count"], "mux_signal": "p0"} if d["muxed"] and i == n - 1 else {}
+        pieces.append(p)
+        pos += L
+    try:
+        sigs, dlc = _make_signals(pieces, "T")
+    except Exception as e:
+        if pos > 64:
+            return False, "oversize layout rejected"
+        return True, f"_make_signals raised {type(e).__name__}: {e} for a {pos}-bit layout"
+    if pos > 64:
+        return True, f"a {pos}-bit layout was turned into a DBC message"
+    bad = []
+    if dlc != (pos + 7) // 8:
+        bad.append(f"dlc {dlc} for {pos} bits")
+    for i, (s, p) in enumerate(zip(sigs, pieces)):
+        es = p.bitstart + 7 if p.endianess == "big" else p.bitstart
+        if (s.start, s.length, s.is_signed, s.unit) != (es, p.bitlength, p.type.s, p.unit):
+            bad.append(f"signal {i}: {(s.start, s.length, s.is_signed, s.unit)} expected {(es, p.bitlength, p.type.s, p.unit)}")
+        exp_ids = list(range(d["mux_count"])) if (d["muxed"] and i == n - 1) else None
+        if (list(s.multiplexer_ids) if s.multiplexer_ids is not None else None) != exp_ids:
+            bad.append(f"signal {i}: multiplexer ids {s.multiplexer_ids} expected {exp_ids}")
+        if bool(s.is_multiplexer) != (d["muxed"] and i == 0):
+            bad.append(f"signal {i}: is_multiplexer {s.is_multiplexer}")
+    if bad:
+        return True, "; ".join(bad[:3])
+    return False, "signal table matches"
+
+
+def replay_dbc_oversize(d):
+    import cantools
+    import fcp_dbc
+    from fcp.encoding import make_encoder, PackedEncoderContext
+
+    fcp = _fcp_text(d["schema_text"])
+    impl = [i for i in fcp.impls if i.protocol == "can"][0]
+    lay = make_encoder("packed", fcp, PackedEncoderContext().with_unroll_arrays(True)).generate(impl)
+    bits = lay[-1].bitstart + lay[-1].bitlength
+    try:
+        files = fcp_dbc.Generator().generate(fcp, {"output": "out"})
+    except Exception as e:
+        if bits > 64:
+            return False, "oversize rejected"
+        return True, f"DBC generation raised {type(e).__name__}: {e} for a {bits}-bit message"
+    if bits > 64:
+        return True, f"a {bits}-bit CAN binding got a DBC message"
+    db = cantools.database.load_string(files[0]["contents"], database_format="dbc", strict=False)
+    msg = db.messages[0]
+    rng = sorted((s.start, s.start + s.length) for s in msg.signals if s.byte_order == "little_endian")
+    for (a0, a1), (b0, b1) in zip(rng, rng[1:]):
+        if a1 > b0:
+            return True, f"signals overlap: {rng}"
+    if rng and rng[-1][1] > 8 * msg.length:
+        return True, f"signal beyond the message: {rng} dlc {msg.length}"
+    return False, "fits"
+
+
+def replay_c14_concrete(d):
+    import json
+
+    from .checks.gating_checks import real_plugin_run
+
+    p, before, after = real_plugin_run(d["generator"], d["schema_text"], d["fits"])
+    try:
+        st = json.loads((p.stdout.strip().splitlines() or ["{}"])[-1])
+    except Exception:
+        st = {"ok": False}
+    if not d["fits"]:
+        if st.get("ok"):
+            return True, f"'{d['generator']}' generation succeeded"
+        if before != after:
+            return True, f"failed but changed the output directory: {sorted(set(after) ^ set(before))[:3]}"
+        return False, "rejected, nothing written"
+    if not st.get("ok"):
+        return True, f"generation failed for a fitting binding: {p.stderr[-200:]}"
+    return False, "generated"
